@@ -60,10 +60,22 @@ pub struct MemoCustom(pub String);
 
 pub struct TagFormatter(String);
 
+/// the formatter's argument: `Hash` is deliberately coarser than `Eq` (length only), so a cache that files
+/// formatters under the hash of their arguments hands `[ok1]` to a request for `ok2`
+#[derive(Clone, PartialEq, Eq)]
+pub struct TagArgs(pub String);
+
+impl std::hash::Hash for TagArgs {
+    fn hash<H: std::hash::Hasher>(&self, h: &mut H) {
+        self.0.len().hash(h)
+    }
+}
+
 impl intl_memoizer::Memoizable for TagFormatter {
-    type Args = (String,);
+    type Args = (TagArgs,);
     type Error = ();
     fn construct(_lang: unic_langid::LanguageIdentifier, args: Self::Args) -> Result<Self, Self::Error> {
+        let args = ((args.0).0,);
         if args.0.starts_with("slow") {
             // a slow constructor: other threads arrive while this one is being built
             std::thread::sleep(std::time::Duration::from_millis(3));
@@ -82,7 +94,7 @@ impl FluentType for MemoCustom {
     }
     fn as_string(&self, intls: &intl_memoizer::IntlLangMemoizer) -> Cow<'static, str> {
         intls
-            .with_try_get::<TagFormatter, _, _>((self.0.clone(),), |f| f.0.clone())
+            .with_try_get::<TagFormatter, _, _>((TagArgs(self.0.clone()),), |f| f.0.clone())
             .unwrap_or_else(|_| "!err".to_string())
             .into()
     }
@@ -91,7 +103,7 @@ impl FluentType for MemoCustom {
         intls: &intl_memoizer::concurrent::IntlLangMemoizer,
     ) -> Cow<'static, str> {
         intls
-            .with_try_get::<TagFormatter, _, _>((self.0.clone(),), |f| {
+            .with_try_get::<TagFormatter, _, _>((TagArgs(self.0.clone()),), |f| {
                 if f.0.starts_with("[lazy") {
                     // a slow format callback: the formatter is still in use while other threads extend the cache
                     std::thread::sleep(std::time::Duration::from_millis(3));
